@@ -378,3 +378,9 @@ def b_native(B):
         sr.close()
     finally:
         shutil.rmtree(d, ignore_errors=True)
+
+
+# ----------------------------------------------------------------------------- contracts of dependencies this property rests on (re-checked here)
+from pyvc.api import depends  # noqa: E402
+depends(PROPERTY, "C09", ["sample2v_imec", "sample2v_nidq"])      # per-channel volts-per-bit vector in on-disk order, 1 on sync
+depends(PROPERTY, "C08", ["joint_permutation"])                   # geometry_from_meta: the order stored as raw_channel_order
